@@ -28,6 +28,17 @@ def judge (input impl : String) : String × String × String :=
   | [head, origS, mutS] =>
     let words := head.splitOn " "
     let get (k : String) : String := ((words.find? (·.startsWith (k ++ "="))).map fun w => (w.drop (k.length + 1)).toString).getD "?"
+    if ((input.splitOn "|").getLast?.getD "").startsWith "addbn" then
+      -- a claim added under a term that an appended inline context maps to a blank node identifier: the statement never
+      -- reaches the RDF dataset, so no signature covers it. Strict validation must refuse it (repair C07-F4, strict half);
+      -- the default validation carries it through (open finding C07-F4)
+      let words := head.splitOn " "
+      let get (k : String) : String := ((words.find? (·.startsWith (k ++ "="))).map fun w => (w.drop (k.length + 1)).toString).getD "?"
+      if get "base" != "acc" then ("=", "SIGNED-DOCUMENT-DOES-NOT-VERIFY", "")
+      else if get "strict" != "rej" then ("=", "STRICT-VALIDATION-CARRIES-AN-UNSIGNED-CLAIM-UNDER-A-BLANK-NODE-TERM", "")
+      else if get "res" != "rej" then ("=", "a claim added under a term mapped to a blank node verifies under the default validation", "C07-F4")
+      else ("=", "=", "")
+    else
     match J.parse origS, J.parse mutS with
     | some o, some m =>
       let (r, s) := expected o m
